@@ -28,7 +28,7 @@ def gen_case(rng, idx, tier):
         want_zero = rng.random() < 0.2
         cur = gen.curve(rng, itv=(F(-1), F(1)) if want_zero else None, want_zero=want_zero or None, nintmax=3)
         d = cv.enc_curve(cur, nt)
-        small = len(cur["P"]) <= 8
+        small = len(cur["P"]) <= 8 and nt == "frac"  # float evaluation at degree 10+ is not accurate to 1e-9: exact class only
         # one elevation in eight by 4..12 at once (the library multiplies one-step matrices; a closed form would differ there)
         d.update(regime="elevate", t=(rng.choice([1, 1, 2, 3]) if small else 1) if rng.random() < 0.87 or not small else rng.randint(4, 12), via=via)
         return d
